@@ -93,4 +93,15 @@ PROPS = {
         "level_note": "Trusted: simulator seams; SQLite atomic commit. Covers states reachable in 3-6 node runs of 2-5 rounds.",
         "design_ref": "DESIGN.md §4 C07",
     },
+    "C36": {
+        "engine": "agreesim", "level": "exploration", "budget": {"quick": 30, "thorough": 600},
+        "rule": "one evaluation = one seeded operation history over a real PersistedParticipation on a real SQLite file (key dilution 2-9, validity span 8-60 rounds, 8-120 ops): advance (DeleteOldKeys, incl. stale lower rounds and jumps over batch boundaries), sign probes of earlier/current/later rounds, "
+                "crash + reload from a copy of the DB file, injected storage error on the key-update transaction; non-trivial = >=1 acknowledged advance and >=1 probe of an already passed round; distinct = distinct event-log digest",
+        "components": {"real": ["data/account PersistedParticipation (DeleteOldKeys, RestoreParticipation, FillDBWithParticipationKeys)", "crypto OneTimeSignatureSecrets (DeleteBeforeFineGrained, Sign, Verify)", "SQLite participation DB on a file"], "stub": ["the node around the keys (rounds are driven by the op generator)"]},
+        "assumptions": ["only deletions whose DB update was acknowledged are required to survive a crash", "crash granularity = SQLite transaction; key erasure from freed memory / disk pages (secure_delete) is not examined"],
+        "technique": "deterministic simulation of key-advance histories with crash/reload and storage-error injection against a reference model of the advanced round",
+        "level_text": "In every explored history: after an advance past round r no valid signature for any earlier round can be produced (in memory, and after reload once the deletion was acknowledged), and every later round in the validity range stays signable.",
+        "level_note": "Trusted: ed25519 verification primitive used by the probe.",
+        "design_ref": "DESIGN.md §4 C36",
+    },
 }
